@@ -14,7 +14,7 @@ type Cond struct {
 	Key   string      `json:"key"`
 	Neg   bool        `json:"neg,omitempty"`
 	Wild  bool        `json:"wild,omitempty"`
-	Val   interface{} `json:"val,omitempty"` // string | bool | float64
+	Val   interface{} `json:"val,omitempty"`   // string | bool | float64
 	Typed bool        `json:"typed,omitempty"` // explicit ":string" suffix
 }
 
